@@ -168,6 +168,8 @@ func (rg *rig) readCase(cs caseSpec, id string, rng *rand.Rand) {
 	}
 	rg.be.setPlan(o, p)
 	rg.noteCase(cs.label())
+	open0 := rg.openNow(0)
+	defer rg.attributeOpen(open0, cs, p, det)
 
 	n0 := rg.be.reqCount(o.hash)
 	out1 := cs.op.run(ctx, rg, rg.front, o)
@@ -253,6 +255,46 @@ func (rg *rig) readCase(cs caseSpec, id string, rng *rand.Rand) {
 	r.Sample(map[string]any{"rig": rg.name, "op": cs.op.name, "plan": p.label, "object": o.String(), "history": det.History})
 }
 
+// openNow: backend connections / readers open right now (idle client
+// connections closed first), polled down to `floor` for a short while. Only
+// for backends where the number is exact; -1 otherwise.
+func (rg *rig) openNow(floor int) int {
+	switch rg.family {
+	case "fake", "azure", "http":
+	default:
+		return -1
+	}
+	deadline := time.Now().Add(3 * time.Second)
+	for {
+		rg.be.closeIdle()
+		n := rg.be.openConns()
+		if n <= floor || time.Now().After(deadline) {
+			return n
+		}
+		time.Sleep(time.Millisecond)
+	}
+}
+
+// attributeOpen: a case that leaves more backend connections / readers open
+// than it found is reported under its own fault class (every call has
+// returned, every returned stream was closed, the rig runs one case at a
+// time and no upload is in flight during read cases).
+func (rg *rig) attributeOpen(open0 int, cs caseSpec, p *plan, det *readDetail) {
+	if open0 < 0 {
+		return
+	}
+	open1 := rg.openNow(open0)
+	if open1 <= open0 {
+		return
+	}
+	rg.mu.Lock()
+	rg.attributed += open1 - open0
+	rg.mu.Unlock()
+	rg.w.r.Violation(rg.key("get", p.stage+"/"+p.fault, "backend-connection-left-open"),
+		fmt.Sprintf("%s: after a read case with backend fault %s (%s) %d backend connection(s)/response stream(s) stay open although every call returned and every returned stream was closed",
+			rg.name, p.label, cs.op.name, open1-open0), det)
+}
+
 // altOp picks another operation with the same target on the same key space.
 func (rg *rig) altOp(p *op, rng *rand.Rand) *op {
 	var ops []*op
@@ -304,6 +346,77 @@ func (rg *rig) judge(p *op, o *object, fault, phase string, out outcome, expect 
 	}
 }
 
+// classBatches (S3, whose client keeps idle connections the harness cannot
+// close): growth test per fault class - N reads through the disk.Cache API
+// with a context that is never cancelled, then N more; a class that leaves a
+// connection behind per request grows by N each time, pooled idle
+// connections do not.
+func (rg *rig) classBatches(half int) {
+	r := rg.w.r
+	rng := r.Rng(fmt.Sprintf("classbatch/%s/%d", rg.name, half))
+	const n = 4
+	settle := func() int {
+		prev := -1
+		for i := 0; i < 40; i++ {
+			c := rg.be.openConns()
+			if c == prev {
+				return c
+			}
+			prev = c
+			time.Sleep(5 * time.Millisecond)
+		}
+		return prev
+	}
+	for _, name := range []string{"404", "short-clean", "short-error", "5xx-once"} {
+		var e *entry
+		for _, x := range catalogue(rg.family, "get") {
+			if x.name == name {
+				e = x
+			}
+		}
+		if e == nil {
+			continue
+		}
+		var counts [3]int
+		counts[0] = settle()
+		var last *plan
+		for b := 1; b <= 2; b++ {
+			for i := 0; i < n; i++ {
+				cs := caseSpec{e: e, op: opAPIGetUnknown, kind: cache.CAS}
+				o := rg.makeObject(rng, cs, fmt.Sprintf("%s-h%d-cb-%s-%d-%d", rg.name, half, name, b, i))
+				p := e.build(rg, o, rng)
+				if o.v2 && (name == "short-clean" || name == "short-error") {
+					p.cut = rng.IntN(16) // inside the part of the header the proxy itself reads
+					p.stage = "header"
+				}
+				last = p
+				if p.expect(false) == expLies {
+					rg.noteLie(o.hash)
+				}
+				if p.act != "absent" {
+					rg.be.put(o)
+				}
+				rg.be.setPlan(o, p)
+				rg.noteCase("class-batch/" + name)
+				out := opAPIGetUnknown.run(context.Background(), rg, rg.front, o)
+				r.Eval()
+				r.Count(fmt.Sprintf("class-batch.%s/%s.%s", rg.name, name, out.class))
+				rg.be.clearPlan(o.hash)
+			}
+			counts[b] = settle()
+		}
+		r.Distinct(rg.name, "class-batch", name)
+		if counts[1]-counts[0] >= n-1 && counts[2]-counts[1] >= n-1 {
+			r.Violation(rg.key("get", last.stage+"/"+last.fault, "backend-connection-left-open"),
+				fmt.Sprintf("%s: reads with backend fault %s leave their backend connection open: %d open before, %d after %d reads, %d after %d reads (calls returned, returned streams closed)",
+					rg.name, last.stage+"/"+last.fault, counts[0], counts[1], n, counts[2], 2*n),
+				map[string]any{"rig": rg.name, "class": name, "open_connections": counts})
+		} else {
+			r.Count("class-batch.no-growth")
+		}
+	}
+}
+
 // runReadCases executes the rig's case list for one half.
 func (rg *rig) runReadCases(specs []caseSpec, half int) {
 	rng := rg.w.r.Rng(fmt.Sprintf("read/%s/%d", rg.name, half))
@@ -312,5 +425,8 @@ func (rg *rig) runReadCases(specs []caseSpec, half int) {
 		if rg.w.r.Violations() > 60 {
 			return
 		}
+	}
+	if rg.family == "s3" && len(specs) > 0 {
+		rg.classBatches(half)
 	}
 }
